@@ -636,10 +636,10 @@ class DoctestParser:
         if mode_hint == 'eval':
             # Also check the tokens in the source lines to look for semicolons
             # to fix #108
-            # Only iterate through non-empty lines otherwise tokenize will stop short
+            # Only iterate through non-blank lines otherwise tokenize will stop short
             # TODO: we probably could just save the tokens if we got them earlier?
             def _has_semicolon(lines):
-                iterable = (line for line in lines if line)
+                iterable = (line for line in lines if line.strip())
                 def _readline():
                     return next(iterable)
                 return any(t.type == tokenize.OP and t.string == ';'
